@@ -176,7 +176,9 @@ def cases(rng, tier):
     tp = S.transplant_cases(random.Random("tp" + str(rng.getstate()[1][0])), tier, 60 if tier == "quick" else 800)
     # DecimalNumber (Sem/Decimal.lean): bare, Array items, Map values
     dec = S.decimal_cases(random.Random("dec" + str(rng.getstate()[1][0])), tier, 40 if tier == "quick" else 500)
-    return base + ext + tp + dec
+    # the Deserializer as an entry point of the chain (Sem/EntryD.lean)
+    dz = S.deser_chain_cases(random.Random("dz" + str(rng.getstate()[1][0])), tier, 150 if tier == "quick" else 2500)
+    return base + ext + tp + dec + dz
 
 
 def search_cases(rng, tier):
